@@ -348,6 +348,39 @@ pub fn check_c03(c: &SolveCase, ctx: &mut Ctx) -> CheckResult {
     check_report(&c.ps, &c.st, &out, &dropped, bound, "report")
 }
 
+/// C03 cases reached on a live solver object: the figures reported by the SECOND solve (after update_q/update_b)
+/// must describe the second solve's returned point and data, whatever the first solve left behind
+pub fn gen_c03_resolve(t: &mut Tape, cfg: &GenCfg) -> ResolveCase {
+    let mut base = gen_c03(t, cfg);
+    // no infinite bounds (see gen_c01_resolve): entries at or above the bound become large finite data
+    let bound = infinity_bound();
+    for v in base.ps.b.iter_mut() {
+        if *v >= bound {
+            *v = 1.0;
+        }
+    }
+    resolve_from(t, base)
+}
+
+pub fn check_c03_resolve(c: &ResolveCase, ctx: &mut Ctx) -> CheckResult {
+    let bound = infinity_bound();
+    if near_bound(&c.base.ps, bound) {
+        ctx.discard = true;
+        return Ok(());
+    }
+    match second_solve(c, ctx)? {
+        Some((out, st0)) => {
+            ctx.sub_evals += 1;
+            label_case(&c.base.ps, &c.base.st, &out, ctx);
+            ctx.nontrivial();
+            ctx.label(format!("first:{}->second:{}", status_name(st0), status_name(out.status)));
+            let dropped = vec![false; c.base.ps.m()];
+            check_report(&c.base.ps, &c.base.st, &out, &dropped, bound, "report").map_err(|e| format!("second solve of one solver object, after update_q/update_b (first solve: {}): {e}", status_name(st0)))
+        }
+        None => Ok(()),
+    }
+}
+
 // C04 ---------------------------------------------------------------------
 
 #[derive(Clone, Debug, serde::Serialize, serde::Deserialize)]
@@ -619,6 +652,8 @@ pub fn run_c03(run: &mut PropRun) {
     let small = cfg_for(run, false);
     let large = cfg_for(run, true);
     run.suite(Suite { name: "report", cases: run.cfg.n(60_000, 1_500_000), tape_len: 1500, gen: &|t| gen_c03(t, &small), check: &check_c03 });
+    run.replay_dir::<ResolveCase>("report-after-update", &check_c03_resolve);
+    run.suite(Suite { name: "report-after-update", cases: run.cfg.n(20_000, 500_000), tape_len: 1800, gen: &|t| gen_c03_resolve(t, &small), check: &check_c03_resolve });
     run.suite(Suite { name: "report-large", cases: run.cfg.n(3_000, 100_000), tape_len: 12_000, gen: &|t| gen_c03(t, &large), check: &check_c03 });
 }
 
@@ -635,6 +670,7 @@ pub fn replay(id: &str, _suite: &str, path: &str) -> CheckResult {
         "C01" => replay_file::<SolveCase>(path, &check_c01),
         "C02" if _suite.starts_with("infeasible-after-update") => replay_file::<ResolveCase>(path, &check_c02_resolve),
         "C02" => replay_file::<SolveCase>(path, &check_c02),
+        "C03" if _suite.starts_with("report-after-update") => replay_file::<ResolveCase>(path, &check_c03_resolve),
         "C03" => replay_file::<SolveCase>(path, &check_c03),
         "C04" => replay_file::<C04Case>(path, &check_c04),
         _ => Err("bad id".into()),
